@@ -607,6 +607,12 @@ impl World {
 
     /// Executes one handler on the real replica and logs the `step` event.
     pub async fn step(&mut self, pos: usize, kind: StepKind) -> StepResult {
+        self.step_cut(pos, kind, None).await
+    }
+
+    /// Like `step`; with `cut = Some(k)` the process is killed after the first k messages of the step left the node
+    /// (the remaining ones are never visible), logged as a `partial` event. The caller must `crash` the node next.
+    pub async fn step_cut(&mut self, pos: usize, kind: StepKind, cut: Option<usize>) -> StepResult {
         let kind_s = match &kind {
             StepKind::Recv(_) => "recv",
             StepKind::Timer => "timer",
@@ -661,13 +667,20 @@ impl World {
         };
         let _ = synced;
         let node = self.nodes.get_mut(&pos).unwrap();
-        let (out, durs) = node.engine.end_step();
+        let (mut out, durs) = node.engine.end_step();
+        let mut cut_applied = false;
+        if let Some(k) = cut {
+            if outcome.is_ok() {
+                out.truncate(k);
+                cut_applied = true;
+            }
+        }
         let crashed_flag = {
             let mut c = node.engine.inner().ctl.lock().unwrap();
             std::mem::take(&mut c.crashed)
         };
         let (accepted, class, crashed) = match &outcome {
-            Ok(o) => (o.accepted, o.class.to_string(), false),
+            Ok(o) => (o.accepted, o.class.to_string(), cut_applied),
             Err(e) if e == "STUCK" => {
                 self.stuck += 1;
                 (false, "STUCK".to_string(), true)
